@@ -348,7 +348,7 @@ def run_shard(desc, ctx):
     hook = AssignHook().install()
     try:
         for _ in range(desc["n"]):
-            check_spec(ctx, gen_spec(rng), hook)
+            check_spec(ctx, G.maybe_prior(rng, gen_spec(rng)), hook)
     finally:
         ctx.count("assign_pages_hook_calls", hook.calls)
         hook.uninstall()
